@@ -924,6 +924,14 @@ fn gen_nal(r: &mut Rng, n: usize, out: &mut dyn Write) {
                 let (hdr, mut d) = gen_slice(r, &spss, &ppss);
                 while d.last() == Some(&0) { d.pop(); }
                 let hdr_len = d.len();   // header bits end in the last byte or in the one before
+                if hdr & 0x1f != 20 && r.below(5) == 0 {
+                    // a slice NAL without slice data (header, stop bit, possibly cabac_zero_words): refused when complete, so no
+                    // prefix of it may be accepted; every cut near its end
+                    let mut e = d.clone(); if r.flag() { e.extend_from_slice(&[0, 0]); if r.flag() { e.extend_from_slice(&[0, 0]); } }
+                    let nal = to_nal(hdr, &e);
+                    emit_prefixes(r, &nal, out, &mut count, true);
+                    for k in 1..=5usize { if nal.len() > k { writeln!(out, "nal {} 0", hex(&nal[..nal.len() - k])).unwrap(); count += 1; } }
+                }
                 if r.below(3) == 0 { let l = d.len(); if d[l - 1] == 0x80 { d.pop(); } }   // byte-aligned header: slice data starts right there
                 d.push(r.pick8(&[0x80, 0x80, 0x00, 0x5a, 0xff])); 
                 for _ in 0..r.below(20) { d.push(r.pick8(&[0, 0, 1, 3, 0xff, 0x55, 0x80])); }
@@ -1073,6 +1081,11 @@ fn gen_spshdr(r: &mut Rng, out: &mut dyn Write) {
 fn gen_tables(which: &str, out: &mut dyn Write) {
     let all: [(&str, u64, &str); 7] = [("chroma", 256, "C04"), ("aspect", 256, "C04"), ("vfmt", 8, "C04"), ("cfmt", 16, "C04"), ("slicetype", 64, "C06"), ("seitype", 512, "C10"), ("picstruct", 16, "C11")];
     for (name, n, p) in all { if which == "all" || which == p { for i in 0..n { writeln!(out, "tbl {} {}", name, i).unwrap(); } } }
+    // T.35 country code: every first byte alone, and followed by every boundary second byte (ff ff = escape followed by extension byte ff)
+    if which == "all" || which == "C11" {
+        for b0 in 0..=255u32 { writeln!(out, "t35 {:02x}", b0).unwrap(); for b1 in [0u32, 1, 0x7f, 0x80, 0xb5, 0xfe, 0xff] { writeln!(out, "t35 {:02x}{:02x}a5", b0, b1).unwrap(); writeln!(out, "t35 {:02x}{:02x}", b0, b1).unwrap(); } }
+        for b1 in 0..=255u32 { writeln!(out, "t35 ff{:02x}5a00", b1).unwrap(); }
+    }
 }
 
 fn gen_enums(n: usize, out: &mut dyn Write) {
